@@ -81,7 +81,9 @@ pub fn check(case: &Case, obs: &mut Obs) -> Verdict {
     let mut first_of_later_para = false;
     for (i, l) in lines.iter().enumerate() {
         let indent: &str = if i == 0 { &o.ii } else { &o.si };
-        let w = textwrap::core::display_width(l);
+        // measured with the harness's reference width (exact for well-formed sequences), so that a wrong width
+        // function inside the library cannot make an over-wide line look as if it fitted
+        let w = ref_width(l);
         let pl = placed[i];
         if i > 0 && paras.iter().any(|(off, _)| *off == pl.start && *off > 0) && ref_width(&o.ii) != ref_width(&o.si) {
             first_of_later_para = true;
@@ -213,7 +215,7 @@ fn extra(cfg: &RunCfg, w: &mut Worker) {
 pub fn prop() -> Prop {
     Prop {
         id: "C02",
-        rule: "cases = (clean multi-paragraph text, first-fit options with built-in splitters, indents of equal/different widths incl. wider than the width, small boundary-directed widths) + exhaustive small strings; every returned line is measured with display_width against the configured width; non-trivial = >= 2 lines; distinct = (option shape, line-count bucket, exempt over-wide line seen, later paragraph with differing indent widths seen, paragraph bucket, indent wider than width)",
+        rule: "cases = (clean multi-paragraph text, first-fit options with built-in splitters, indents of equal/different widths incl. wider than the width, small boundary-directed widths) + exhaustive small strings; every returned line is measured (reference width: per-character table outside well-formed sequences) against the configured width; non-trivial = >= 2 lines; distinct = (option shape, line-count bucket, exempt over-wide line seen, later paragraph with differing indent widths seen, paragraph bucket, indent wider than width)",
         gen,
         check,
         panic_is_violation: false,
